@@ -197,6 +197,32 @@ def run(rec, F):
                 else:
                     allowed.add(denied)  # unknown shape: fail closed
             ok = bool(kinds) and denied not in allowed
+            if not ok:
+                # the same test spelled as a bool predicate (`self.kind != Denied`, or a
+                # helper such as can_send(&self)): decide it per kind and keep the kinds
+                # for which the guarded edge is taken
+                KINDS = [v["name"] for v in F.adts[CH + "Kind"]["variants"]] if (CH + "Kind") in F.adts else []
+                for w, d, outc in gs:
+                    if fn.blocks[w]["t"]["ty"] != "bool" or not KINDS:
+                        continue
+                    l = sem.op_local(fn.blocks[w]["t"]["on"])
+                    truth = {}
+                    for k in KINDS:
+                        truth[k] = sem.eval_bool_under_variant(F, fn, l, "kind", k) if l is not None else None
+                    if any(v is None for v in truth.values()):
+                        continue
+                    # outcome taken on the dominating edge, in terms of the raw switch operand
+                    t = fn.blocks[w]["t"]
+                    taken = None
+                    for val, dst in t["targets"]:
+                        if fn.edge_dominates(w, dst, fw[0][0]):
+                            taken = (val != "0")
+                    if taken is None and fn.edge_dominates(w, t["otherwise"], fw[0][0]):
+                        taken = True
+                    if taken is None:
+                        continue
+                    if not (truth[denied] == taken) and any(v == taken for v in truth.values()):
+                        ok = True
         rec.inst(RV, "Channel::%s:access" % nm, ok=ok, loc=fn.loc)
         if not ok:
             rec.finding(RV, "F4.chan-views/access/%s" % nm, "Channel::%s forwards to the queue for a %s view" % (nm, denied), loc=fn.loc, fn=fn.path)
@@ -275,7 +301,7 @@ def handoff(rec, F, send, recv):
                 continue
             rew = [tt for bi, tt in h.calls() if bi in reg and lastseg(tt["f"]) == "update_ip" and (sem.signed(sem.const_int(tt["args"][-1])) or 0) < 0]
             pushes = [tt for bi, tt in h.calls() if bi in reg and tt["f"].endswith("fiber::Fiber::push")]
-            errs = [tt for bi, tt in h.calls() if bi in reg and lastseg(tt["f"]).startswith("runtime_error")]
+            errs = [tt for bi, tt in h.calls() if bi in reg and (lastseg(tt["f"]).startswith("runtime_error") or (sem.is_error_call(F, tt) and lastseg(tt["f"]) not in sem.ERROR_BASE))]
             moved = res.get(var, set())
             if var in ("Closed",) and enum == "ReceiveResult":
                 d = sem.desc_operand(h, pushes[0]["args"][1]) if len(pushes) == 1 else ("?",)
@@ -301,7 +327,7 @@ def handoff(rec, F, send, recv):
 
 
 def sync_release(rec, F):
-    R = rec.rule("F4.chan-sync", "a synchronous sender is released (found runnable) only when the slot is empty, i.e. after its value was taken: in the Sync arm of runnable_waiter every search of send_waiters is dominated by is_empty() == true")
+    R = rec.rule("F4.chan-sync", "a synchronous sender is released (found runnable) only when the slot is empty, i.e. after its value was taken: every search of send_waiters in runnable_waiter that can run for a Sync queue is dominated by is_empty() == true")
     fn = q(F, "runnable_waiter")
     if fn is None:
         rec.anchor_lost("F4.chan-sync", "ChannelQueue::runnable_waiter")
@@ -318,17 +344,25 @@ def sync_release(rec, F):
         return
     b, sv = sw
     t = fn.blocks[b]["t"]
+    # blocks that only run for a Buffered queue (reached solely through the non-Sync edges of the kind switch)
     sync_dst = [dst for v, dst in t["targets"] if sv[1].get(v) == "Sync"]
     if not sync_dst:
         listed = {sv[1].get(v) for v, _ in t["targets"]}
         if "Sync" not in listed:
             sync_dst = [t["otherwise"]]
-    reg = arm_region(fn, b, sync_dst[0]) | {sync_dst[0]}
+    other_dst = [dst for v, dst in t["targets"] if dst not in sync_dst] + ([t["otherwise"]] if t["otherwise"] not in sync_dst else [])
+    sync_reach = set()
+    for d_ in sync_dst:
+        sync_reach |= sem.region_from_edge(fn, d_)
+    buffered_only = set()
+    for d_ in other_dst:
+        buffered_only |= sem.region_from_edge(fn, d_)
+    buffered_only -= sync_reach
     clos = sem.closure_paths_in(fn)
     n = 0
     sites = []
     for bi, tt in fn.calls():
-        if bi not in reg:
+        if bi in buffered_only:
             continue
         if lastseg(tt["f"]) == "find_runnable_waiter" and sem.desc_mentions_field(sem.desc_operand(fn, tt["args"][0]), "send_waiters"):
             sites.append((bi, tt))
@@ -345,10 +379,10 @@ def sync_release(rec, F):
         n += 1
         gs = sem.dominating_guards(F, fn, bi)
         ok = any(sem.desc_call_name(d) == "is_empty" and outc is True for w, d, outc in gs)
-        rec.inst(R, "Sync: send_waiters search under is_empty()", ok=ok, loc=loc_of(tt["sp"]))
+        rec.inst(R, "send_waiters search that can run for a Sync queue is under is_empty()", ok=ok, loc=loc_of(tt["sp"]))
         if not ok:
             rec.finding(R, "F4.chan-sync/release-before-taken", "runnable_waiter (Sync) can hand back a parked sender while the slot still holds its value: a synchronous sender would proceed before its value has been taken", loc=loc_of(tt["sp"]), fn=fn.path)
-    rec.floor(R, "send_waiters searches in the Sync arm", n, 1)
+    rec.floor(R, "send_waiters searches that can run for a Sync queue", n, 1)
 
 
 def park_kind(rec, F, send, recv):
